@@ -1,39 +1,35 @@
 package main
 
-// encoding/hex encoding of symbolic bytes (digest strings): the real code indexes the 16-entry table "0123456789abcdef"
-// with a symbolic nibble, which costs one bounds query per nibble and puts 16-deep ite chains over 64-bit index
-// comparisons on the assertion stack (a 64-byte digest = 128 of them; z3 4.8.12 then needs minutes per query).
-// Model: the same function written arithmetically, hexchar(n) = n + (n < 10 ? '0' : 'a'-10). Concrete bytes fold.
-
 import (
 	"golang.org/x/tools/go/ssa"
 )
 
-func hexChar(n *Term) *Term { // n: 8-bit term with value 0..15
-	return Bin("bvadd", n, Ite(Bin("bvult", n, C(8, 10)), C(8, '0'), C(8, 'a'-10)))
-}
-
-func hexEncodeTerms(src []*Term) []*Term {
-	out := make([]*Term, 0, 2*len(src))
-	for _, b := range src {
-		out = append(out, hexChar(Bin("bvlshr", b, C(8, 4))), hexChar(Bin("bvand", b, C(8, 15))))
-	}
-	return out
-}
-
+// encoding/hex.Encode(dst, src []byte) int. The real code indexes the 16-entry table "0123456789abcdef" with each
+// nibble; for a symbolic byte that becomes two 16-way ite chains per byte (a shake256 digest is 64 bytes and its
+// text form is hashed again, so these chains dominate the C08/C09 formulas). This model writes the same characters
+// arithmetically: char(n) = n < 10 ? '0'+n : 'a'+n-10. Concrete bytes are folded by the term constructors.
+// EncodeToString / AppendEncode call Encode, so they are covered as well.
 func init() {
-	reg("encoding/hex.EncodeToString", func(in *Interp, fn *ssa.Function, args []Value) Value {
-		return strFromTerms(hexEncodeTerms(in.bytesOf(args[0])))
-	})
 	reg("encoding/hex.Encode", func(in *Interp, fn *ssa.Function, args []Value) Value {
-		dst := args[0].(Slice)
-		out := hexEncodeTerms(in.bytesOf(args[1]))
-		if len(out) > dst.len {
-			in.goPanicStr("runtime error: index out of range (hex.Encode)")
+		dst, ok1 := args[0].(Slice)
+		src, ok2 := args[1].(Slice)
+		if !ok1 || !ok2 {
+			in.abort("hex.Encode: slices expected, have %T, %T", args[0], args[1])
 		}
-		for i, t := range out {
-			in.setElem(dst.arr, dst.off+i, t)
+		if dst.len < 2*src.len {
+			in.goPanicStr("runtime error: index out of range (hex.Encode dst too short)")
 		}
-		return CI(len(out))
+		hexChar := func(n *Term) *Term {
+			return Ite(Bin("bvult", n, C(8, 10)), Bin("bvadd", n, C(8, '0')), Bin("bvadd", n, C(8, 'a'-10)))
+		}
+		for i := 0; i < src.len; i++ {
+			x, ok := src.arr.e[src.off+i].(*Term)
+			if !ok {
+				in.abort("hex.Encode: byte term expected, have %T", src.arr.e[src.off+i])
+			}
+			in.setElem(dst.arr, dst.off+2*i, hexChar(Bin("bvlshr", x, C(8, 4))))
+			in.setElem(dst.arr, dst.off+2*i+1, hexChar(Bin("bvand", x, C(8, 15))))
+		}
+		return CI(2 * src.len)
 	})
 }
